@@ -110,6 +110,14 @@ func (s *Service) proxyToSingleEndpoint(ctx context.Context, w http.ResponseWrit
 	}
 	defer resp.Body.Close()
 
+	// Go's client accepts any three digits as a status; its server panics on anything below 100
+	if resp.StatusCode < 100 || resp.StatusCode > 999 {
+		err = fmt.Errorf("backend answered with an invalid HTTP status code %03d", resp.StatusCode)
+		rlog.Error("round-trip failed", "error", err)
+		s.RecordFailure(ctx, endpoint, time.Since(stats.StartTime), err)
+		return err
+	}
+
 	// Record success with circuit breaker
 	if cb != nil {
 		cb.RecordSuccess()
